@@ -66,6 +66,7 @@ type c12Case struct {
 	Seq  []int  `json:"symbols"`
 	Site string `json:"site,omitempty"`
 	Perm []int  `json:"iteration_order,omitempty"`
+	Lazy int    `json:"lazy_mask,omitempty"` // processors: bit i = participant i is LazyInit
 }
 
 func seqs(maxLen, nsym int, yield func([]int) bool) {
@@ -203,13 +204,26 @@ func c12RunSite(cs c12Case) (names []string, shared *scen.RT, o *scen.StartObs) 
 				loaders, parts = append(loaders, x), append(parts, &x.Part)
 			}
 		case "processors":
-			switch c12Class(s) {
-			case 0:
+			lazy := cs.Lazy>>i&1 == 1
+			switch {
+			case c12Class(s) == 0 && lazy:
+				x := &scen.ProcPZ{}
+				x.Part = p
+				comps, parts = append(comps, x), append(parts, &x.Part)
+			case c12Class(s) == 0:
 				x := &scen.ProcP{}
 				x.Part = p
 				comps, parts = append(comps, x), append(parts, &x.Part)
-			case 1:
+			case c12Class(s) == 1 && lazy:
+				x := &scen.ProcOZ{}
+				x.Part = p
+				comps, parts = append(comps, x), append(parts, &x.Part)
+			case c12Class(s) == 1:
 				x := &scen.ProcO{}
+				x.Part = p
+				comps, parts = append(comps, x), append(parts, &x.Part)
+			case lazy:
+				x := &scen.ProcNZ{}
 				x.Part = p
 				comps, parts = append(comps, x), append(parts, &x.Part)
 			default:
@@ -273,6 +287,19 @@ func c12Sites(c *core.Ctx) {
 						return false
 					}
 				}
+				if site == "processors" && n <= 3 {
+					// every mix of LazyInit and ordinary processors, identity and reversed iteration order
+					for m := 1; m < 1<<n; m++ {
+						for _, k := range []int{0, factorialInt(n) - 1} {
+							if ok = yield(c12Case{Seq: s, Site: site, Perm: scen.NthPerm(n, k), Lazy: m}); !ok {
+								return false
+							}
+							if n == 1 {
+								break
+							}
+						}
+					}
+				}
 				return true
 			})
 			if !ok {
@@ -293,7 +320,7 @@ func c12Sites(c *core.Ctx) {
 		for _, s := range cs.Seq {
 			symn = append(symn, c12Sym(s))
 		}
-		key := "C12/" + cs.Site + "/" + core.Hash(cs.Seq, cs.Perm)
+		key := "C12/" + cs.Site + "/" + core.Hash(cs.Seq, cs.Perm, cs.Lazy)
 		if !o.OK() {
 			c.Outcome(cs.Site + "/start-failed")
 			c.Report(key, "start-failed", fmt.Sprintf("%s %v: start-up did not succeed: %v %s %s", cs.Site, symn, scen.FirstLine(o.Err), o.Panic, o.Abort), cs)
@@ -323,7 +350,7 @@ func c12Sites(c *core.Ctx) {
 			}
 			if msg := contractViolation(classes, orders); msg != "" {
 				c.Outcome(cs.Site + "/contract-violated")
-				c.Report(key, "order-contract", fmt.Sprintf("%s %v (iteration order %v): invocation sequence %v: %s", cs.Site, symn, cs.Perm, shared.Log, msg), cs)
+				c.Report(key, "order-contract", fmt.Sprintf("%s %v (iteration order %v, lazy mask %b): invocation sequence %v: %s", cs.Site, symn, cs.Perm, cs.Lazy, shared.Log, msg), cs)
 				return false
 			}
 			return true
